@@ -714,6 +714,97 @@ def rule_r10(ctx: Ctx) -> None:
     ctx.check(not bad, b.short, "%d two-level compositions x (min, max, %d divisors, expansion)" % (len(leaves) * len(ops) ** 2, len(divisors)), "the analytic answers of a nested composition are those of the mathematically defined set", b.module.relpath, bad[:4])
 
 
+def rule_r11(ctx: Ctx) -> None:
+    """the last clause of the property, decided extensionally on a grid: sets are bound to names, asked everything, used as
+    operands of further compositions (which are asked everything too - queries may fill or touch memos), and asked again.
+    The evaluator keeps the repository's own lists / sets / dicts as Python objects, so a constructor that adopts an operand's
+    container, or a query that merges into an operand's answer, shows up as a changed answer of the operand."""
+    import itertools as _it
+
+    ctx.rule("C01.R11", "operands are never changed by building new sets from them: every set bound to a name answers min, max, the residues and the expansion identically before and after it is used (once or several times) as an operand of pad / repeat / repeat_range / concatenate / unite and the results are queried [bounded grid, evaluated from the source]", min_instances=1)
+    b = ctx.cls(BLS)
+    divisors = (1, 3, 4, 8)
+
+    def ask(env: Dict[str, Any], name: str, expand: bool = True) -> Dict[str, Any]:
+        out: Dict[str, Any] = {"min": _eval_bls(ctx, "%s.min" % name, env), "max": _eval_bls(ctx, "%s.max" % name, env)}
+        for d in divisors:
+            r = _eval_bls(ctx, "set(%s %% %d)" % (name, d), env)
+            out["%% %d" % d] = frozenset(r) if isinstance(r, (set, frozenset, list)) else r
+        if expand:
+            r = _eval_bls(ctx, "set(%s)" % name, env)
+            out["expansion"] = frozenset(r) if isinstance(r, (set, frozenset, list)) else r
+        return out
+
+    def meaning(xs: frozenset) -> Dict[str, Any]:
+        out: Dict[str, Any] = {"min": min(xs), "max": max(xs), "expansion": xs}
+        for d in divisors:
+            out["%% %d" % d] = frozenset(x % d for x in xs)
+        return out
+
+    firsts = [
+        ("a + p", lambda a, p: frozenset(x + y for x in a for y in p)),
+        ("a | p", lambda a, p: a | p),
+        ("a.repeat(2)", lambda a, p: frozenset(x + y for x in a for y in a)),
+        ("a.repeat_range(2)", lambda a, p: frozenset({0}) | a | frozenset(x + y for x in a for y in a)),
+        ("a.pad_to_alignment(4)", lambda a, p: frozenset(-(-x // 4) * 4 for x in a)),
+        ("BitLengthSet.concatenate([a, p, a])", lambda a, p: frozenset(x + y + z for x in a for y in p for z in a)),
+        ("BitLengthSet.unite([a, p])", lambda a, p: a | p),
+    ]
+    seconds = [
+        ("x + q", lambda x, q: frozenset(u + v for u in x for v in q)),
+        ("q + x", lambda x, q: frozenset(u + v for u in x for v in q)),
+        ("x | q", lambda x, q: x | q),
+        ("q | x", lambda x, q: x | q),
+        ("x.repeat(2)", lambda x, q: frozenset(u + v for u in x for v in x)),
+        ("x.repeat_range(1)", lambda x, q: frozenset({0}) | x),
+        ("x.pad_to_alignment(8)", lambda x, q: frozenset(-(-u // 8) * 8 for u in x)),
+        ("BitLengthSet.concatenate([x, x, q])", lambda x, q: frozenset(u + v + w for u in x for v in x for w in q)),
+        ("BitLengthSet.unite([q, x, p])", lambda x, q: x | q | P),
+    ]
+    A, P, Q = frozenset({1, 5, 12}), frozenset({0, 8, 9}), frozenset({2, 3, 40, 41})
+    bad = []
+    n = 0
+    for warm in (True, False):  # with every memo filled before the set is used as an operand, and cold
+        for f_src, f_def in firsts:
+            env: Dict[str, Any] = {}
+            for nm, xs in (("a", A), ("p", P), ("q", Q)):
+                env[nm] = _eval_bls(ctx, "BitLengthSet(%r)" % set(xs), {})
+            env["x"] = _eval_bls(ctx, f_src, env)
+            if isinstance(env["x"], tuple):
+                raise AnalysisError("%s cannot be built over the rule's sets: %r" % (f_src, env["x"]))
+            mean = {"a": meaning(A), "p": meaning(P), "q": meaning(Q), "x": meaning(f_def(A, P))}
+            if warm:
+                for nm in ("a", "p", "q", "x"):
+                    ask(env, nm)
+            for g_src, g_def in seconds:
+                env["y"] = _eval_bls(ctx, g_src, env)
+                if isinstance(env["y"], tuple):
+                    raise AnalysisError("%s cannot be built over the rule's sets: %r" % (g_src, env["y"]))
+                want_y = meaning(g_def(f_def(A, P), Q))
+                got_y = ask(env, "y")
+                n += len(got_y)
+                wrong = sorted(k for k in want_y if got_y.get(k) != want_y[k])
+                if wrong:
+                    bad.append({"x": f_src, "then": g_src, "memos filled before": warm, "changed": "y itself answers `%s` wrongly" % wrong[0], "found": _show(got_y[wrong[0]]), "expected": _show(want_y[wrong[0]])})
+                for nm in ("x", "a", "p", "q"):
+                    got = ask(env, nm)
+                    n += len(got)
+                    wrong = sorted(k for k in mean[nm] if got.get(k) != mean[nm][k])
+                    if wrong:
+                        bad.append({"x": f_src, "then": "y = " + g_src, "memos filled before": warm, "changed": "operand `%s` now answers `%s` differently" % (nm, wrong[0]), "found": _show(got[wrong[0]]), "expected": _show(mean[nm][wrong[0]])})
+                        break
+                if len(bad) > 8:
+                    break
+            if len(bad) > 8:
+                break
+    ctx.count(n)
+    ctx.check(not bad, b.short, "%d (first composition, second composition) pairs x {memos filled, cold}: the operands' answers before and after" % (len(firsts) * len(seconds)), "operands are never changed by building new sets from them (nor by querying the results)", b.module.relpath, bad[:4])
+
+
+def _show(v: Any) -> Any:
+    return sorted(v) if isinstance(v, (set, frozenset)) else v
+
+
 def rule_r9(ctx: Ctx) -> None:
     from . import approx_keys
 
@@ -732,5 +823,6 @@ def run(ctx: Ctx) -> None:
     ctx.attempt(rule_r8, ctx)
     ctx.attempt(rule_r9, ctx)
     ctx.attempt(rule_r10, ctx)
+    ctx.attempt(rule_r11, ctx)
     ctx.assume("itertools.product / combinations_with_replacement, math.lcm and set arithmetic are exact (trusted stdlib)")
     ctx.undecided("that the per-operator residue formulas equal the mathematical definition for all operator trees and divisors (number theory over unbounded integers); validate_numerically is a run-time self-check")
